@@ -83,6 +83,8 @@ func genC12(e *emitter, tier string, seed int64) {
 		"01/Jan/1970:00:00:00 +0000", "31/Dec/1969:23:59:59 +0000", "691231 23:59:59", "1969/12/31 - 23:59:59", "06/Jan/2017:16:16:37 +0000", "02/Dec/2021:11:55:34 -0500", "02/Dec/2021:11:55:34 -0330", "2021/02/27 - 4:14:20", "Tue May 8 06:25:05.176170 2021", "14 May 2019 19:11:40.164", "14 May 19:11:40.164", "171113 14:14:20", "2021/02/27 - 14:14:20",
 		"Tue May 18 06:25:05.176170 2021", "2021-05-27 06:54:14.760 UTC", "2021-03-15T00:08:10Z", "2017-12-29T12:33:33.095243Z",
 		"1610358231887", "1610358231", "2014-04-26 17:24:37.3186369", "May 8, 2009 5:57:51 PM", "not a time", "", "12345",
+		// (round 7: texts the general parser refuses — a month beyond 12 — stay refused)
+		"31/12/2021 10:00:00", "13/02/2021", "25/12/2021 23:59", "12/31/2021 10:00:00", "2021-13-01 00:00:00", "31.12.2021",
 	}
 	zones := []string{"", `, "+8"`, `, "-3:30"`, `, "Asia/Shanghai"`, `, "UTC"`, `, "CST"`, `, "+99"`, `, "Nowhere/City"`, `, "America/New_York"`, `, "+0"`}
 	for _, st := range stamps {
